@@ -1,4 +1,5 @@
-(** Concrete histories on which the faithful model does not return the latest write. *)
+(** Concrete histories: one on which the faithful model does not return the
+    latest write, and regression examples of repaired rules. *)
 From Coq Require Import List NArith Bool String.
 From NoKV Require Import Base.Bytes Model.Lsm Spec.MvccSpec.
 Import ListNotations.
@@ -30,14 +31,17 @@ Example ingest_tie_values :
 Proof. vm_compute. split; reflexivity. Qed.
 
 (** Versions written out of order across sources: write (a,7); flush; write
-    (a,5); a read at version 10 returns the version-5 entry. *)
+    (a,5).  Before the repair of the first-hit rule a read at version 10
+    returned the version-5 entry of the memtable (C02-F4); the scan now goes on
+    to L0 and returns version 7. *)
 Definition out_of_order : list op :=
   [OPut (mk "a" 7 "new" 1); ORotate; OFlush; OPut (mk "a" 5 "old" 2)].
 
-Lemma out_of_order_refuted :
-  exists ops k v, option_map r_val (get (run (init 1) ops) k v)
-                  <> option_map r_val (latest_at (writes ops) k v).
-Proof. exists out_of_order, (of_string "a"), 10. vm_compute. discriminate. Qed.
+Example out_of_order_ok :
+  option_map r_val (get (run (init 1) out_of_order) (of_string "a") 10) = Some (of_string "new") /\
+  option_map r_val (latest_at (writes out_of_order) (of_string "a") 10) = Some (of_string "new") /\
+  option_map r_val (get (run (init 1) out_of_order) (of_string "a") 6) = Some (of_string "old").
+Proof. vm_compute. repeat split; reflexivity. Qed.
 
 (** The repaired L0 rule: two flushes of the same plain key, the newer wins. *)
 Definition l0_tie : list op :=
